@@ -493,6 +493,9 @@ func gateYesWithoutTest(p *Program, gate *ssa.Function, field string) ssa.Instru
 			}
 			return depends(x.X, depth+1, seen)
 		case *ssa.BinOp:
+			if vacuousLenCompare(x) {
+				return false // len(t) >= 0 and its like say nothing about t
+			}
 			return depends(x.X, depth+1, seen) || depends(x.Y, depth+1, seen)
 		case *ssa.Convert:
 			return depends(x.X, depth+1, seen)
@@ -641,4 +644,57 @@ func gateYesWithoutTest(p *Program, gate *ssa.Function, field string) ssa.Instru
 		}
 	}
 	return offender
+}
+
+// vacuousLenCompare: a comparison of len(x) with a constant that has the same outcome for every x
+// (len(x) >= 0, len(x) < 0, 0 <= len(x), 0 > len(x), len(x) > -1 ...).
+func vacuousLenCompare(b *ssa.BinOp) bool {
+	isLen := func(v ssa.Value) bool {
+		c, ok := stripConv(v).(*ssa.Call)
+		if !ok {
+			return false
+		}
+		bi, ok := c.Call.Value.(*ssa.Builtin)
+		return ok && (bi.Name() == "len" || bi.Name() == "cap")
+	}
+	konst := func(v ssa.Value) (int64, bool) {
+		c, ok := v.(*ssa.Const)
+		if !ok || c.Value == nil || !isIntegerType(c.Type()) {
+			return 0, false
+		}
+		return c.Int64(), true
+	}
+	op := b.Op
+	var k int64
+	switch {
+	case isLen(b.X):
+		kk, ok := konst(b.Y)
+		if !ok {
+			return false
+		}
+		k = kk
+	case isLen(b.Y):
+		kk, ok := konst(b.X)
+		if !ok {
+			return false
+		}
+		k = kk
+		op = map[token.Token]token.Token{token.LSS: token.GTR, token.LEQ: token.GEQ, token.GTR: token.LSS, token.GEQ: token.LEQ, token.EQL: token.EQL, token.NEQ: token.NEQ}[op]
+	default:
+		return false
+	}
+	// len REL k
+	switch op {
+	case token.GEQ:
+		return k <= 0
+	case token.GTR:
+		return k < 0
+	case token.LSS:
+		return k <= 0
+	case token.LEQ:
+		return k < 0
+	case token.EQL, token.NEQ:
+		return k < 0
+	}
+	return false
 }
